@@ -169,7 +169,25 @@ def _r1(run, prog, ci):
     from ..inline import class_lookup
     run.describe('C17-R1', 'area, centroid, volume and total volume decided on the values the code computes for polygons of 3, 4 and 5 symbolic vertices')
     K = ci.mod.name + '|AxisymmetricVoxel|'
-    look = class_lookup(prog, ci)
+    _cl = class_lookup(prog, ci)
+    from ..inline import module_lookup as _ml
+    _mlk = _ml(ci.mod, public=True, prog=prog)
+
+    def look(c):
+        # private methods first, then module-level functions (also those imported from a sibling module of the package)
+        r = _cl(c)
+        if r is not None:
+            return r
+        if isinstance(c.func, ast.Name) and c.func.id not in ('abs', 'fabs', 'sqrt', 'len', 'range', 'max', 'min', 'float', 'int', 'new_point2d', 'Point2D'):
+            try:
+                return _mlk(c)
+            except Exception:
+                return None
+        return None
+
+    def _opaque(v):
+        import re as _re
+        return [l for l in (v.leaves() if hasattr(v, 'leaves') else []) if _re.match(r'^[A-Za-z_][\w.]*\(', l) and not l.startswith(('ABS(', 'SQRT(', 'sqrt('))]
     for pname in ('cross_sectional_area', 'cross_section_centroid'):
         fn = ci.getters.get(pname)
         if fn is None:
@@ -201,7 +219,9 @@ def _r1(run, prog, ci):
                     if comp is None or not (comp[0].eq(wx) and comp[1].eq(wy)):
                         bad = (('point(%s, %s)' % (comp[0].key()[:100], comp[1].key()[:100])) if comp else v, p)
                         break
-            if bad:
+            if bad and not isinstance(bad[0], str) and _opaque(bad[0]):
+                run.undecided('C17-R1', '%s N=%d' % (pname, N), 'computed by %s, which was not resolved' % _opaque(bad[0])[0][:40])
+            elif bad:
                 got = bad[0] if isinstance(bad[0], str) else bad[0].key()[:220]
                 run.fail('C17-R1', K + '%s|value' % pname, ci.mod.relpath, fn.lineno,
                          '%s of a polygon with %d vertices is %s on the path %s; documented: %s' % (
